@@ -283,9 +283,9 @@ def _shrink_child(pid, v, conn):
         signal.signal(signal.SIGALRM, _alarm)
         signal.setitimer(signal.ITIMER_REAL, 600)
         ops, tests, ok = shrink.shrink(
-            prop, v["cfg"], v["ops"], v["violation"]["kind"]
+            prop, v["cfg"], v["ops"], v["violation"]["kind"], run_seed=v["run_seed"]
         )
-        res = engine.run_replay(prop, v["cfg"], ops)
+        res = engine.run_replay(prop, v["cfg"], ops, v["run_seed"])
         conn.send_bytes(
             json.dumps(
                 {"ops": ops, "tests": tests, "ok": ok, "violation": res.violation}
